@@ -6,7 +6,7 @@
 (* Clauses that start with "MACHINERY:" mean the event itself is unusable  *)
 (* (a wrong hint) - they are never reported as violations of the property. *)
 (***************************************************************************)
-EXTENDS CGSem, CGLint, CGTxLoops
+EXTENDS CGSem, CGLint, CGSupergates
 
 RECURSIVE TFISetTx(_,_)
 TFISetTx(c, S) == LET P == S \cup UNION {FiSet(c, i) : i \in S} IN IF P = S THEN S ELSE TFISetTx(c, P)
@@ -428,6 +428,11 @@ Judge_supergates(e) ==
       cone == AncClose(c, Outputs(c))
       producedBy(nm) == {j \in 1..Len(L) : nm \in SgInternal(L[j])}
   IN Machinery(c)
+     \* as built: the blocks are one of the block sets the per-cone dominator construction, the cover filter and the
+     \* keyed dict can produce
+     \cup (IF ~e.wide /\ c.n <= 9 /\ c.acyc /\ WellFormedRec(c) /\ (\A j \in 1..Len(L) : WellFormedRec(L[j]))
+              /\ {ToNamed(L[j]) : j \in 1..Len(L)} \notin {{b.sg : b \in R} : R \in SupergateResults(ToNamed(c))}
+           THEN {"DRIFT:supergates_not_among_the_as_built_model_results"} ELSE {})
      \cup UNION { LET sg == L[j]  tag == "@" \o ToString(j) IN
                   (IF WellFormedRec(sg) THEN {} ELSE {"MACHINERY:malformed_record"})
                   \cup (IF Cardinality(Outputs(sg)) = 1 THEN {} ELSE {"not_single_output" \o tag})
